@@ -34,6 +34,7 @@ DEVS = [("Ind_dev_sliceany.cfg", "fragment nodes sliced in set-iteration order (
         ("Ind_dev_firstmatch.cfg", "a link applied to the first match found only"),
         ("Ind_dev_orient.cfg", "stored edge orientation decides the link direction"),
         ("Ind_dev_oncegroup.cfg", "a link applied once per set of residues: one orientation of a `*` link lost (seed-C13-2)"),
+        ("Ind_dev_replacevisible.cfg", "replaced attribute values mirrored into the residue fragments: later links select on them (seed5-C13-2)"),
         ("Ind_dev_namecache.cfg", "residue-name combinations without link atoms remembered per link: same-named residues differing by a residue-level attribute (seed3-C13-1)"),
         ("Ind_dev_dfstree.cfg", "fragments = components over depth-first tree edges (F31, repaired)"),
         ("Ind_dev_fragid.cfg", "correspondences stored in merge order, looked up by fragment id (F32, repaired)"),
@@ -361,7 +362,12 @@ def random_ff_case(rng, idx):
             links.append({"orders": [0, 1], "atoms": [{"oi": 1, "an": "c1", "rn": [nm], "mk": "x"}, {"oi": 2, "an": "c2", "rn": list(names)}],
                           "inters": [{"kind": "bonds", "at": [1, 2], "par": "0.26", "ver": 1}], "rep": [], "del": []})
         if rng.random() < 0.4:    # retype
-            links.append({"orders": [0], "atoms": [{"oi": 1, "an": "c1", "rn": [rng.choice(names)]}], "inters": [], "rep": [{"a": 1, "ty": "TX"}], "del": []})
+            nm = rng.choice(names)
+            links.append({"orders": [0], "atoms": [{"oi": 1, "an": "c1", "rn": [nm]}], "inters": [], "rep": [{"a": 1, "ty": "TX"}], "del": []})
+            if rng.random() < 0.7:    # ... and a link (another interaction) that selects the retyped atom by its ORIGINAL type: the two commute
+                t0 = [b for b in blocks if b["name"] == nm][0]["atoms"][0]["ty"]
+                links.append({"orders": [0, 1], "atoms": [{"oi": 1, "an": "c2", "rn": [nm]}, {"oi": 1, "an": "c1", "rn": [nm], "ty": t0}, {"oi": 2, "an": "c2", "rn": list(names)}],
+                              "inters": [{"kind": "angles", "at": [1, 2, 3], "par": "0.30", "ver": 1}], "rep": [], "del": []})
     # residue graph
     marked_name = locals().get("marked_name")
     order = list(range(1, n + 1))
@@ -427,6 +433,7 @@ def random_ff_case(rng, idx):
     for l in links:
         for a in l["atoms"]:
             a.setdefault("mk", "")
+            a.setdefault("ty", "")
     case = {"id": idx, "ff": idx, "n": n, "start": start, "rn": rn, "fi": fi, "E": sorted(sorted(e) for e in edges), "mods": [], "mark": mark}
     return F, case
 
@@ -637,8 +644,9 @@ def run(tier, prop=PROP):
     ck.assumptions = ["residue ids are fixed and contiguous; node keys of one type (all integers or all strings: the JSON reader sorts them)",
                       "definitions of the same thing (same block / modification name; links with an interaction on the same atoms and version, or "
                       "retyping the same atom) keep their relative order: 'defined last wins' is order-dependent by specification (MustKeep)",
-                      "force fields without self-interference: no link tests an attribute another link replaces (links select by atom name and residue name only), "
-                      "no non-edge / pattern conditions (C02 covers those for one ordering)",
+                      "links select atoms by atom name, residue name, a residue-level attribute or the ORIGINAL atom type of the block (link atoms are matched against the "
+                      "residue fragments, which keep the block's attributes: a replacing link and a link selecting on the replaced attribute commute); "
+                      "no non-edge / pattern conditions, which read the molecule as earlier links left it (C02 covers those for one ordering)",
                       "an atom removed by a link does not sit at a node key equal to a version number (open finding of C02, label-independent)",
                       "variants compare atoms in order, the interaction MULTISET, nrexcl and the citation set; byte-identical files (minus the command-line "
                       "header) are required for repeated runs / histories, where nothing but the process state differs",
@@ -710,6 +718,7 @@ def run(tier, prop=PROP):
         "from_itp_in_cyclic_graph": sum(1 for F, cs in gen if any(cs["fi"]) and len(cs["E"]) >= cs["n"]),
         "two_separate_fragments": sum(1 for F, cs in gen if _nfrag(cs) >= 2),
         "links_selecting_on_a_residue_attribute": sum(1 for F, cs in gen if any(cs["mark"])),
+        "replace_link_and_link_selecting_the_replaced_attribute": sum(1 for F, cs in gen if any(a.get("ty") for l in F["links"] for a in l["atoms"])),
         "star_order_links": sum(1 for F, cs in gen if any(o >= 100 for l in F["links"] for o in l["orders"])),
         "link_versions_next_to_itp_files": sum(1 for F, cs in gen if any(f["syn"] == "itp" for f in F["files"]) and any(x["ver"] != 1 for l in F["links"] for x in l["inters"]))}
     ck.extra["random_cases"] = {"cases": len(recs), "variants": sum(len(r["vars"]) for r in recs), "variants_with_reordered_definitions": nreordered,
